@@ -42,14 +42,15 @@ type Job struct {
 
 // JobResult is what the arena child reports per job.
 type JobResult struct {
-	ID     int    `json:"id"`
-	Out    string `json:"out"`  // ok | err | panic | hang | setup
-	Err    string `json:"err"`  // error text (diagnostics only, never compared)
-	Size   int64  `json:"size"`
-	Before string `json:"before"`
-	After  string `json:"after"`
-	Extra  string `json:"extra,omitempty"`
-	Millis int64  `json:"ms"`
+	ID        int    `json:"id"`
+	Out       string `json:"out"` // ok | err | panic | hang | setup
+	Err       string `json:"err"` // error text (diagnostics only, never compared)
+	Size      int64  `json:"size"`
+	Before    string `json:"before"`
+	After     string `json:"after"`
+	Extra     string `json:"extra,omitempty"`
+	Archive64 []byte `json:"archive,omitempty"`
+	Millis    int64  `json:"ms"`
 }
 
 func fatal(msg string, err error) {
@@ -246,7 +247,7 @@ func buildWorld(nodes []Node) error {
 			return err
 		}
 	}
-	ts := []unix.Timespec{{Sec: 1000}, {Sec: 1000}}
+	ts := []unix.Timespec{{Sec: 0}, {Sec: 0}}
 	return unix.UtimesNanoAt(unix.AT_FDCWD, "/w", ts, 0)
 }
 
